@@ -3,5 +3,6 @@ CONSTANTS Record = TRUE
           MaxLen = 2
           MaxStack = 2
           Rich = FALSE
+          GH = TRUE
 CONSTRAINT Bound
 INVARIANT Emit
